@@ -11,7 +11,7 @@ from ..tlc import TLCError, require_ok, run_tlc
 
 use_repo()
 from iOpt.evolvent.evolvent import Evolvent  # noqa: E402
-from ..evolvent_drv import scribbled  # noqa: E402
+from ..evolvent_drv import make_evolvent, scribbled, set_bounds  # noqa: E402
 
 
 def obj_cfg(ci, co, ip, ml, xs, ys, kinds, hist=False):
@@ -126,7 +126,11 @@ class Rec:
         return {"id": next(self.idgen), "op": op, "n": self.n, "m": self.m, "lo": qv(self.lo), "up": qv(self.up)}
 
     def image(self, ev, x):
-        r = ev.GetImage(x)
+        try:
+            r = ev.GetImage(x)
+        except Exception as ex:      # noqa: BLE001
+            self.events.append(dict(self.base("raises"), of="image", exc=type(ex).__name__, xf=repr(x)))
+            return None
         e = self.base("image")
         known = id(r) in self.ord
         rid = self.ordinal(r)
@@ -148,7 +152,15 @@ class Rec:
         else:
             arg = [int(v) for v in vals]
         before = qv(np.asarray(arg, dtype=float).ravel())
-        x = ev.GetInverseImage(arg) if via == "inverse" else ev.GetPreimages(arg)
+        try:
+            x = ev.GetInverseImage(arg) if via == "inverse" else ev.GetPreimages(arg)
+        except Exception as ex:      # noqa: BLE001
+            if kind != "f64" and reuse is None:
+                from ..evolvent_drv import NOTES      # another representation than the documented float64 array is rejected: noted
+                NOTES.append("%s(argument as %s) raised %s" % (via, kind, type(ex).__name__))
+            else:
+                self.events.append(dict(self.base("raises"), of=via, exc=type(ex).__name__, kind=kind))
+            return arg
         after = qv(np.asarray(arg, dtype=float).ravel())
         e = self.base(via)
         aid = self.ordinal(arg) if isinstance(arg, np.ndarray) else 0
@@ -167,9 +179,9 @@ def replay_history(rec, hist, n, m):
             lo, up = [a] * n, [b] * n
             la, ua, scribble = scribbled(lo, up)      # the caller's arrays are (sometimes) overwritten after configuration:
             if op == "new":                           # results for one configuration must not depend on that (the memo is per configuration)
-                ev = Evolvent(la, ua, n, m)
+                ev = make_evolvent(la, ua, n, m, lo, up)
             else:
-                ev.SetBounds(la, ua)
+                set_bounds(ev, la, ua, lo, up)
             if (len(rec.events) + st.get("c", 0)) % 2 == 0:
                 scribble()
             rec.cfg(op, n, m, lo, up)
@@ -190,7 +202,7 @@ def random_history(rec, rng, length):
     for _ in range(rng.choice([1, 1, 2])):
         lo, up = rand_box(rng, n)
         la, ua, scribble = scribbled(lo, up)
-        objs.append([Evolvent(la, ua, n, m), lo, up])
+        objs.append([make_evolvent(la, ua, n, m, lo, up), lo, up])
         if rng.random() < 0.5:
             scribble()
         rec.cfg("new", n, m, lo, up)
@@ -231,7 +243,7 @@ def random_history(rec, rng, length):
         else:
             lo2, up2 = rng.choice(boxes)
             la, ua, scribble = scribbled(lo2, up2)
-            ev.SetBounds(la, ua)
+            set_bounds(ev, la, ua, lo2, up2)
             if rng.random() < 0.5:
                 scribble()
             o[1], o[2] = list(lo2), list(up2)
